@@ -3,11 +3,6 @@ from __future__ import annotations
 
 import ast
 
-from ..poly import S, Poly
-from ..source import norm, walk_no_nested
-from . import io_rules as io
-from . import io_rules2 as io2
-from .io_rules2 import TextEval
 
 EXPLANATION = "(R1) per-block bodies and the particle file interpreted on a symbolic file: selected and skipped variables (types d/i/b) and step_over advance the byte position alike, every decode on its own record; (R2) descriptor_to_variables over the forms of select (dict with predicate / False, True, False, list, empty) with a previous load's pieces present; Loader.load fold over select None / dict / list / unknown group; (R3) only initialised readers open files and see records; reader.initialize histories on / off / files gone; (R4) vector assembly over 12 name sets; derived variables over 4 input sets."
 NOT_DECIDED = 'values; descriptors with types other than d/i/b'
